@@ -801,3 +801,109 @@ def O2(b):
         with mock.patch.object(orchestration.queueing, 'watcher', fake_watcher), \
                 mock.patch.object(orchestration.peering, 'keepalive', fake_keepalive):
             asyncio.run(main())
+
+
+# ================================================================================================ O3 (owner)
+@harness('O3', targets='kopf._core.reactor.orchestration.orchestrator', props=['C19'],
+         clauses=['no_lost_revision', 'adjusts_after_every_wakeup', 'cancellation_stops_streams'],
+         canaries=['canary.never_adjusts'],
+         trusted=['asyncio.Condition: wait() releases the lock while waiting and re-acquires it before returning',
+                  'observation.*: insights are revised, and insights.revised notified, only while holding insights.revised',
+                  'adjust_tasks by contract O2 (brings the watcher set in line with the insights as they are when it runs)'],
+         assumes=['no revision is committed before the orchestrator first holds insights.revised (start-up ordering of the root tasks; not verified)'])
+def O3(vc):
+    """
+    orchestration.orchestrator: no revision of the insights (namespaces/resources appearing or disappearing) is ever
+    lost.  Ghost `dirty` = "a revision was committed that no adjustment has seen yet".  Revisers commit (and notify)
+    only while holding the condition's lock, i.e. only at suspension points where the orchestrator does NOT hold it.
+    Loop invariant: the lock is held and not dirty.  One round: wait() (entered only when not dirty -- a revision
+    notified before the wait starts would have no waiter and be lost), then adjust_tasks, which sees every revision
+    committed so far; nothing may be committed while it runs, because then the next wait() would start dirty.
+    On cancellation all streaming tasks of the ensemble are stopped before the cancellation propagates.
+    """
+    import asyncio
+    from pyvc.stubs import Opaque
+    st = Opaque('state')
+    st.held = False
+    st.dirty = False
+    st.started = False          # the orchestrator has held the lock at least once
+    st.adjusts = 0
+    st.in_round = False
+
+    def on_suspend(site):
+        if st.started and not st.held and vc.nondet(2, 'a reviser commits a revision here?') == 1:
+            st.dirty = True
+        if st.in_round and vc.nondet(2, 'cancelled here?') == 1:
+            st.cancelled = True
+            return asyncio.CancelledError()
+        return None
+
+    class Revised:
+        async def __aenter__(self):
+            await suspend('revised.acquire')
+            st.held = True
+            st.started = True
+            return self
+
+        async def __aexit__(self, *exc):
+            st.held = False
+            return False
+
+        async def wait(self):
+            vc.ensure('no_lost_revision', st.held and not st.dirty)
+            st.held = False
+            await suspend('revised.wait')          # released while waiting: revisers may commit and notify
+            st.held = True
+            st.woken = True
+            return True
+
+    async def adjust_tasks(**kw):
+        vc.ensure('adjusts_after_every_wakeup', getattr(st, 'woken', False) and kw['insights'] is insights and kw['ensemble'] is st.ensemble)
+        st.woken = False
+        st.dirty = False                 # it reads the insights as they are now
+        st.adjusts += 1
+        vc.canary('canary.never_adjusts', False)
+        await suspend('adjust_tasks: stopping redundant tasks')
+        await suspend('adjust_tasks: spawning missing tasks')
+
+    class EnsembleStub:
+        def __init__(self, **kw):
+            st.ensemble = self
+            self.kw = kw
+        def get_keys(self): return ['k1', 'k2']
+        def get_tasks(self, keys):
+            vc.ensure('cancellation_stops_streams', keys == ['k1', 'k2'])
+            return st.tasks
+    st.tasks = Opaque('tasks')
+    stopped = []
+
+    async def stop(tasks, **kw):
+        stopped.append(tasks)
+        await suspend('aiotasks.stop')
+    insights = Opaque('insights', revised=Revised())
+    paused = Opaque('operator_paused')
+
+    async def make_toggle(name=None):
+        await suspend('make_toggle')
+        return Opaque('toggle')
+    paused.make_toggle = make_toggle
+
+    def inv(loc):
+        return And(st.held, Not(st.dirty))
+
+    def havoc(loc):
+        st.woken = False
+        st.in_round = True
+        return {}
+    ld = vc.load('kopf._core.reactor.orchestration', 'orchestrator', stubs={
+        'adjust_tasks': adjust_tasks, 'Ensemble': EnsembleStub, 'aiotasks.stop': stop,
+        'aiotoggles.ToggleSet': lambda fn: Opaque('toggleset'), 'logger': NullLogger(),
+    }, loops={1: LoopSpec('while True', invariant=inv, havoc=havoc)})
+    try:
+        vc.drive(ld.fn(processor=Opaque('processor'), settings=Opaque('settings'), identity='me', insights=insights,
+                       operator_paused=paused), on_suspend=on_suspend)
+        outcome = 'return'
+    except asyncio.CancelledError:
+        outcome = 'cancelled'
+        vc.ensure('cancellation_stops_streams', stopped == [st.tasks])
+    return (outcome, st.adjusts)
